@@ -15,16 +15,26 @@ namespace detail {
 template <typename T>
 [[nodiscard]] constexpr auto nextafter(T from, T to) -> T
 {
-    using U             = etl::conditional_t<sizeof(T) == 4U, etl::uint32_t, etl::uint64_t>;
+    using U = etl::conditional_t<sizeof(T) == 4U, etl::uint32_t, etl::uint64_t>;
+
+    if (from != from or to != to) {
+        return from + to; // NaN
+    }
+    if (from == to) {
+        return to; // also covers zeros of different sign
+    }
+    if (from == T(0)) {
+        // smallest subnormal in the direction of to
+        auto const tiny = etl::bit_cast<T>(U(1));
+        return to > T(0) ? tiny : -tiny;
+    }
+
+    // Moving away from zero increments the representation, moving toward zero decrements it.
     auto const fromBits = etl::bit_cast<U>(from);
-    auto const toBits   = etl::bit_cast<U>(to);
-    if (toBits == fromBits) {
-        return to;
+    if ((from < to) == (from > T(0))) {
+        return etl::bit_cast<T>(static_cast<U>(fromBits + 1));
     }
-    if (toBits > fromBits) {
-        return etl::bit_cast<T>(fromBits + 1);
-    }
-    return etl::bit_cast<T>(fromBits - 1);
+    return etl::bit_cast<T>(static_cast<U>(fromBits - 1));
 }
 } // namespace detail
 
